@@ -21,7 +21,7 @@ from inline_snapshot import snapshot
 __all__ = [
     "Color", "Perm", "Outer", "DC", "DCD", "DCN", "AT", "PM", "NT", "NTD", "NoCode", "BadCopy", "RaisesEq",
     "Unorderable", "REC", "rec", "ok", "mark", "check_eq", "check_le", "check_ge", "check_in", "G", "set_g",
-    "Is", "outsource", "snapshot", "defaultdict", "ident", "Plain", "EvilEq",
+    "Is", "outsource", "snapshot", "defaultdict", "ident", "Plain", "EvilEq", "snapshot_alias",
 ]
 
 defaultdict = collections.defaultdict
@@ -182,6 +182,10 @@ class Unorderable:
 
 def ident(x):
     return x
+
+
+# the same function under another name (used where a call must not be counted as a generated call site)
+snapshot_alias = snapshot
 
 
 # ---------------------------------------------------------------- recording
